@@ -95,7 +95,8 @@ def _programs(b, w, prog, sp, tier, square):
     if nd == 2:
         # the factorisations: compared up to the declared gauge facts (the sign of a block may sit on Q / U)
         ops += [(n, a, f, (), None) for (r, n, a, f) in matrix_ops(b, sp) if not any(k in n for k in SKIP)]
-        full = partner(sp, 2, 0, tag="y")
+        # a partner that closes the network to a scalar: total charge zero, so an odd x meets an odd y (labels merge with a sign)
+        full = partner(sp, 2, 0, tag="y", charge=Model(sp.sym).sign(sp.charge))
         if full is not None:
             tdi = prog.func("symmray.interface:tensordot")
             ops.append(("tensordot (scalar result)", tdi,
@@ -152,7 +153,7 @@ def _lazy_job(state, case):
     w = World(prog)
     wit = Witness()
     b = Battery(prog, tier)
-    reached = set()
+    reached, internal = set(), set()
     for (name, anchor, fn, others, prep) in _programs(b, w, prog, sp, tier, square):
         where = f"{name} on {sp.describe()}"
         key = f"R09.5|{name.split(' ; ')[-1].split(' ')[0]}|{anchor.fq}"
@@ -169,10 +170,12 @@ def _lazy_job(state, case):
                         x = w.meth(ev, x, "phase_sync")
                         ys = [w.meth(ev, y, "phase_sync") for y in ys]
                     minieval.TRACE = None if synced else lines
+                    minieval.LAZY_AT = internal if synced else None
                     try:
                         r = fn(ev, x, *ys)
                     finally:
                         minieval.TRACE = None
+                        minieval.LAZY_AT = None
                     outs.append(observable(w, ev, r))
                     completed += 1
                 except Diverges:
@@ -199,7 +202,7 @@ def _lazy_job(state, case):
             wit.bad(key, f"{where}: {type(e).__name__}: {e}")
         except LayoutError as e:
             wit.bad(key, f"{where}: {e}")
-    return wit.w, wit.n, reached
+    return wit.w, wit.n, (reached, internal)
 
 
 def _sync_job(state, sp):
@@ -295,12 +298,13 @@ def check_lazy_equivalence(prog, ctx):
 
     if os.environ.get("VERIF_SELFTEST"):
         cases = cases[::3]  # armed-ness runs (one per corpus variant) use a third of the family
-    wits, n, reached = {}, 0, set()
-    for wmap, cnt, lines in pmap(_lazy_job, (prog, tier), cases):
+    wits, n, reached, internal = {}, 0, set(), set()
+    for wmap, cnt, (lines, inner) in pmap(_lazy_job, (prog, tier), cases):
         for k, v in wmap.items():
             wits.setdefault(k, v)
         n += cnt.get("R09.5", 0)
         reached |= lines
+        internal |= inner
     ctx.need(n >= (150 if os.environ.get("VERIF_SELFTEST") else 500) or wits, f"R09.5: only {n} twin evaluations")
     sync = prog.func("symmray.fermionic_core:FermionicArray.phase_sync")
     if not wits:
@@ -311,4 +315,4 @@ def check_lazy_equivalence(prog, ctx):
         _, opname, fq = key.split("|", 2)
         f = prog.funcs.get(fq, sync)
         ctx.check(False, "R09.5", f, f.node, f"{opname}: lazy != synced", f"pending signs are observable — witness: {msg}")
-    return n, (reached if not wits else None)
+    return n, ((reached, internal) if not wits else None)
